@@ -160,7 +160,7 @@ def run(ctx):
             if n >= 1 and st['m_queue']:
                 ctx.probe('release_grants_some_not_all')
 
-        async def job(me, s, w, hold, raise_in_body):
+        async def job(me, w, hold, raise_in_body):
             rec = invoke(me, w)
             try:
                 # the holding interval is exactly the body of the block: __aenter__ returns and
@@ -193,7 +193,7 @@ def run(ctx):
                     w = cap - s.draw(third)
                 hold = s.ticks(8)
                 mode = s.draw(5)  # 4: leave the body by exception
-                await job(me, s, w, hold, mode == 4)
+                await job(me, w, hold, mode == 4)
 
         tasks = [asyncio.create_task(holder(i), name=f'j{i}') for i in range(n_tasks)]
         done, pending = await asyncio.wait(tasks, timeout=600.0)
@@ -207,7 +207,7 @@ def run(ctx):
             raise RuntimeError(f'jobs never finished: {sorted(t.get_name() for t in pending)} held={st["held"]}')
         assert st['held'] == 0 and not st['pending'], st
         # last job: the whole capacity at once (it is at the head and everything is free)
-        last = asyncio.create_task(job('last', None, cap, 0.0, False), name='last')
+        last = asyncio.create_task(job('last', cap, 0.0, False), name='last')
         done, pending = await asyncio.wait([last], timeout=100.0)
         if st['violation'] is not None:
             raise st['violation']
